@@ -68,6 +68,10 @@ func ensureCpu(r *JResources) *JCpu {
 // its writer so the final owner is recognisable in the reply.
 func SetRes(r *JResources, it Item, who, n int) {
 	v := int64(1000*(who+1) + n)
+	if n == ZeroN {
+		// the zero / empty value of the field: still a value that was SET
+		v = 0
+	}
 	switch it.Kind {
 	case "memLimit":
 		ensureMem(r).Limit = ip(v)
@@ -82,9 +86,9 @@ func SetRes(r *JResources, it Item, who, n int) {
 	case "memSwappiness":
 		ensureMem(r).Swappiness = up(uint64(v))
 	case "memDisableOom":
-		ensureMem(r).DisableOomKiller = bp(who%2 == 0)
+		ensureMem(r).DisableOomKiller = bp(who%2 == 0 && n != ZeroN)
 	case "memUseHierarchy":
-		ensureMem(r).UseHierarchy = bp(who%2 == 1)
+		ensureMem(r).UseHierarchy = bp(who%2 == 1 && n != ZeroN)
 	case "cpuShares":
 		ensureCpu(r).Shares = up(uint64(v))
 	case "cpuQuota":
@@ -102,16 +106,43 @@ func SetRes(r *JResources, it Item, who, n int) {
 	case "pids":
 		r.Pids = ip(v)
 	case "blockio":
-		r.BlockioClass = sp(fmt.Sprintf("bio-%d-%d", who, n))
+		r.BlockioClass = sp(zeroOr(n, fmt.Sprintf("bio-%d-%d", who, n)))
 	case "rdt":
-		r.RdtClass = sp(fmt.Sprintf("rdt-%d-%d", who, n))
+		r.RdtClass = sp(zeroOr(n, fmt.Sprintf("rdt-%d-%d", who, n)))
 	case "hugepage":
 		r.Hugepages = append(r.Hugepages, JHugepage{it.Key, uint64(v)})
 	case "unified":
-		r.Unified = append(r.Unified, [2]string{it.Key, fmt.Sprintf("u-%d-%d", who, n)})
+		// a Go map cannot carry one key twice: a repeated key replaces the entry
+		val := zeroOr(n, fmt.Sprintf("u-%d-%d", who, n))
+		for i := range r.Unified {
+			if r.Unified[i][0] == it.Key {
+				r.Unified[i][1] = val
+				return
+			}
+		}
+		r.Unified = append(r.Unified, [2]string{it.Key, val})
 	default:
 		panic("not a resource item: " + it.Kind)
 	}
+}
+
+// ZeroN as the value selector makes SetRes / SetAdj write the zero / empty value of the item.
+const ZeroN = 777
+
+func zeroOr(n int, s string) string {
+	if n == ZeroN {
+		return ""
+	}
+	return s
+}
+
+// HasZero: the item has a zero / empty value that is distinct from "not set".
+func HasZero(kind string) bool {
+	switch kind {
+	case "mount", "device", "cdi", "args", "cgroupsPath", "cpusetCpus", "cpusetMems":
+		return false
+	}
+	return true
 }
 
 func IsResource(kind string) bool {
@@ -148,7 +179,7 @@ func mkDevice(path string, who, n int) JDevice {
 func SetAdj(a *JAdjust, it Item, who, n int) {
 	switch it.Kind {
 	case "annotation":
-		a.Annotations = append(a.Annotations, [2]string{it.Key, fmt.Sprintf("a-%d-%d", who, n)})
+		a.Annotations = append(a.Annotations, [2]string{it.Key, zeroOr(n, fmt.Sprintf("a-%d-%d", who, n))})
 	case "mount":
 		a.Mounts = append(a.Mounts, mkMount(it.Key, who, n))
 	case "device":
@@ -157,17 +188,25 @@ func SetAdj(a *JAdjust, it Item, who, n int) {
 	case "cdi":
 		a.CdiDevices = append(a.CdiDevices, it.Key)
 	case "env":
-		a.Env = append(a.Env, JKV{it.Key, fmt.Sprintf("e-%d-%d", who, n)})
+		a.Env = append(a.Env, JKV{it.Key, zeroOr(n, fmt.Sprintf("e-%d-%d", who, n))})
 	case "args":
 		a.Args = []string{fmt.Sprintf("cmd-p%d", who), fmt.Sprintf("arg%d", n)}
 	case "rlimit":
-		a.Rlimits = append(a.Rlimits, JRlimit{it.Key, uint64(2000 + 10*who + n), uint64(1000 + 10*who + n)})
+		if n == ZeroN {
+			a.Rlimits = append(a.Rlimits, JRlimit{it.Key, 0, 0})
+		} else {
+			a.Rlimits = append(a.Rlimits, JRlimit{it.Key, uint64(2000 + 10*who + n), uint64(1000 + 10*who + n)})
+		}
 	case "cgroupsPath":
 		a.HasLinux = true
 		a.CgroupsPath = fmt.Sprintf("/cg/p%d/%d", who, n)
 	case "oomScoreAdj":
 		a.HasLinux = true
-		a.OomScoreAdj = ip(int64(-100 + 10*who + n))
+		if n == ZeroN {
+			a.OomScoreAdj = ip(0)
+		} else {
+			a.OomScoreAdj = ip(int64(-100 + 10*who + n))
+		}
 	default:
 		a.HasLinux = true
 		SetRes(ensureRes(&a.Resources), it, who, n)
@@ -274,6 +313,13 @@ func BaseContainer(id string, r *rand.Rand, populate float64) JContainer {
 	if pick() {
 		SetRes(res, Item{"unified", "orig.unified"}, 90, 0)
 	}
+	// hugepage limits the runtime already requested (kubelet-created containers carry them),
+	// of sizes the plugins use too
+	for _, k := range Keys("hugepage")[:3] {
+		if pick() && pick() {
+			SetRes(res, Item{"hugepage", k}, 90, 0)
+		}
+	}
 	return c
 }
 
@@ -365,7 +411,8 @@ func Systematic() []sysCase {
 	}
 	shapes := []string{"adjacent", "apart", "disjoint", "single-prepopulated", "rm-then-set", "middle-lone-rm", "ignored",
 		"same-value", "same-as-original", "multi-removal", "multi-removal-reset",
-		"noop-then-rm", "noop-then-rmset", "noop-reset-then-rmset"}
+		"noop-then-rm", "noop-then-rmset", "noop-reset-then-rmset",
+		"zero-single", "zero-adjacent", "zero-then-value", "ignored-partial-unified"}
 	for _, it := range AllItems() {
 		for _, p := range paths {
 			if p.path == "update" && !IsResource(it.Kind) {
@@ -383,6 +430,12 @@ func Systematic() []sysCase {
 					continue
 				}
 				if strings.HasPrefix(shape, "noop-") && !(p.path == "adjust" && Removable[it.Kind]) {
+					continue
+				}
+				if strings.HasPrefix(shape, "zero-") && !HasZero(it.Kind) {
+					continue
+				}
+				if shape == "ignored-partial-unified" && !(p.path == "update" && it.Kind == "unified") {
 					continue
 				}
 				for first := 0; first < 2; first++ { // position of the first writer in the chain
@@ -475,6 +528,30 @@ func Systematic() []sysCase {
 						RemoveAdj(rsp[a+1].Adjust, it, true)
 						setOn(&rsp[a+3], p.path, p.target, it, a+3, 1, false)
 						RemoveAdj(rsp[a+3].Adjust, it, true)
+					case "zero-single":
+						// one writer, writing the zero / empty value: it is a value that was set
+						setOn(&rsp[a+1], p.path, p.target, it, a+1, ZeroN, false)
+					case "zero-adjacent":
+						// two writers of the zero value: still two setters
+						setOn(&rsp[a], p.path, p.target, it, a, ZeroN, false)
+						setOn(&rsp[a+1], p.path, p.target, it, a+1, ZeroN, false)
+					case "zero-then-value":
+						setOn(&rsp[a], p.path, p.target, it, a, ZeroN, false)
+						setOn(&rsp[a+2], p.path, p.target, it, a+2, 1, false)
+					case "ignored-partial-unified":
+						// an ignore-failure update names two unified keys, one already owned; the
+						// other one is set by a later plugin: whether the dropped update keeps its
+						// claim on it depends on Go's map iteration order
+						o := otherItem(it)
+						setOn(&rsp[a], p.path, p.target, o, a, 0, false)
+						u := NewUpdate(p.target, true)
+						SetRes(ensureRes(&u.Resources), it, a+1, 0)
+						SetRes(u.Resources, o, a+1, 0)
+						SetRes(u.Resources, Item{"unified", "zz.extra"}, a+1, 0)
+						rsp[a+1].Updates = append(rsp[a+1].Updates, u)
+						u2 := NewUpdate(p.target, first == 1)
+						SetRes(ensureRes(&u2.Resources), it, a+3, 1)
+						rsp[a+3].Updates = append(rsp[a+3].Updates, u2)
 					case "ignored":
 						setOn(&rsp[a], p.path, p.target, it, a, 0, false)
 						// the later plugin's update conflicts but is marked ignore-failure; it also
@@ -514,6 +591,9 @@ func (g *Gen) key(kind string, who int, stray float64) string {
 func (g *Gen) randomAdjust(who int, stray float64) *JAdjust {
 	a := NewAdjust()
 	n := g.R.Intn(3)
+	if g.chance(0.06) {
+		n = ZeroN // zero / empty values: still values that were set
+	}
 	for _, kind := range []string{"annotation", "mount", "device", "env"} {
 		if !g.chance(0.45) {
 			continue
@@ -595,6 +675,9 @@ func (g *Gen) randomAdjust(who int, stray float64) *JAdjust {
 // they are avoided so that one response rarely names an item twice.
 func (g *Gen) randomRes(r *JResources, who int, stray float64, used map[string]bool) {
 	n := g.R.Intn(3)
+	if g.chance(0.06) {
+		n = ZeroN
+	}
 	take := func(k string) bool {
 		if used == nil {
 			return true
@@ -616,7 +699,7 @@ func (g *Gen) randomRes(r *JResources, who int, stray float64, used map[string]b
 			SetRes(r, Item{"hugepage", k}, who, n)
 		}
 	}
-	if g.chance(0.3) {
+	for j := 0; j < 3 && g.chance(0.3); j++ {
 		if k := g.key("unified", who, stray); take("unified/" + k) {
 			SetRes(r, Item{"unified", k}, who, n)
 		}
@@ -798,9 +881,10 @@ func primeOriginal(in *CaseIn, path, target string, it Item, who, n int) {
 			c.OomScoreAdj = tmp.OomScoreAdj
 		case "rlimit":
 			c.Rlimits = append(c.Rlimits, tmp.Rlimits...)
-		case "cdi", "hugepage":
-			// CDI names are not part of a container; an original hugepage limit of the same
-			// size is a recorded guard - leave the original alone
+		case "hugepage":
+			SetRes(&c.Resources, it, who, n)
+		case "cdi":
+			// CDI names are not part of a container
 		default:
 			SetRes(&c.Resources, it, who, n)
 		}
